@@ -243,8 +243,13 @@ class PipeRig(Rig):
             got = list(self.processes.received_async())
             if not got:
                 return None
+            self.last_popped = len(got)
+            self.last_scheduled = []
             for service, command in got:
+                waiting = len(self.reactor.asynchronous._async)
                 self.reactor.api.process(self.reactor, service, command)
+                # True when API.process left the answer to a callback on the ASYNC queue
+                self.last_scheduled.append(len(self.reactor.asynchronous._async) > waiting)
             for _ in range(50):
                 if not self.reactor.asynchronous._async:
                     break
